@@ -26,6 +26,7 @@ import (
 	"fmt"
 	"math/rand"
 	"os"
+	"runtime"
 	"sort"
 	"strconv"
 	"strings"
@@ -441,6 +442,146 @@ func (w *world) evDeadLate(i, j int) {
 	w.obs(i, d)
 }
 
+// spin without letting virtual time pass (a goroutine blocked on the router mutex is not "durably blocked" for
+// synctest, so neither synctest.Wait nor time.Sleep may be used while one is)
+func spin(n int) {
+	for k := 0; k < n; k++ {
+		runtime.Gosched()
+	}
+}
+
+// The REAL interleaving of the dead sweep with an update that has already started: the sweep holds the router lock and
+// is stalled inside NeighborTable.Remove (the management queue is full, routeUnregister blocks) BEFORE the neighbour
+// object is cleared; `go dv.ribUpdate(ns)` starts now (whatever it reads before taking the lock, it reads now); the
+// queue drains, the sweep finishes, and only then the update gets the lock.  Trace: ev dead, ev late, one dump.
+func (w *world) evDeadLateRace(i, j int) {
+	if w.rt[i] == nil || !w.nbr[i][j] {
+		return
+	}
+	var adv *tlv.Advertisement
+	if w.rt[j] != nil {
+		adv = w.advertOf(j)
+	} else if a, ok := w.lastAdv[j]; ok {
+		adv = a
+	}
+	if adv == nil {
+		w.evDead(i, j)
+		return
+	}
+	w.evSync(i, j, w.mseq[[2]int{i, j}]) // a heartbeat: the neighbour object gets a face, so removal issues commands
+	if w.rt[i] == nil || !w.nbr[i][j] {
+		return
+	}
+	ns := w.rt[i].Vf18StoreAdvert(w.names[j], adv)
+	if ns == nil {
+		return
+	}
+	w.evClock()
+	fmt.Fprintf(w.w, "ev dead %s %s\n", w.id(w.hash[i]), w.id(w.hash[j]))
+	w.evc++
+	w.unclean = true
+	now := time.Now()
+	for _, nm := range w.rt[i].Vf18Neighbors().Vf18Names() {
+		o := w.rt[i].Vf18Neighbors().Get(nm)
+		if nm.Equal(w.names[j]) {
+			o.Vf18SetLastSeen(time.Time{})
+		} else {
+			o.Vf18SetLastSeen(now)
+		}
+	}
+	q := w.rt[i].Vf18Nfdc()
+	synctest.Wait()
+	q.Vf18FillQueue()
+	done1 := make(chan struct{})
+	go func() { w.rt[i].Vf18CheckDead(); close(done1) }()
+	synctest.Wait() // the sweep is stalled on the full queue, holding the lock, the neighbour object still intact
+	fmt.Fprintf(w.w, "ev late %s %s\n", w.id(w.hash[i]), w.id(w.hash[j]))
+	w.evc++
+	done2 := make(chan struct{})
+	r := w.rt[i]
+	go func() { r.Vf18RibUpdateNs(ns); close(done2) }()
+	spin(3000) // the update has started: it is waiting for the lock (or has read what it reads before locking)
+	wait := func(done chan struct{}) bool {
+		for k := 0; k < 2000000; k++ {
+			q.Vf18DrainAll()
+			select {
+			case <-done:
+				return true
+			default:
+				runtime.Gosched()
+			}
+		}
+		return false
+	}
+	if !wait(done1) || !wait(done2) {
+		w.fail = "interleaving harness stuck (sweep / late update did not finish)"
+		return
+	}
+	delete(w.nbr[i], j)
+	delete(w.need, [2]int{i, j})
+	delete(w.mseq, [2]int{i, j})
+	spin(2000)
+	q.Vf18DrainAll()
+	w.settle()
+	if w.dirtyOf(i) == "1" {
+		w.announce(i)
+	}
+	w.obs(i, "x")
+	w.topoChanged()
+}
+
+// A newer advertisement overtakes an update that has already started: advertDataHandler stored advertisement A and
+// started `go dv.ribUpdate(ns)`; before that goroutine gets the router lock, the handler of the next Data (played by the
+// harness, holding the lock) stores the newer advertisement B.  The update must apply what is current when it holds
+// the lock: B.   A = the advertisement held in flight (ev hold), B = the stored one (ev snap).
+func (w *world) evOvertake(i, j int) {
+	a, okA := w.held[j]
+	b, okB := w.slots[j]
+	if !okA || !okB || w.rt[i] == nil || !w.nbr[i][j] {
+		return
+	}
+	ns := w.rt[i].Vf18StoreAdvert(w.names[j], a.adv)
+	if ns == nil {
+		return
+	}
+	fmt.Fprintf(w.w, "ev overtake %s %s\n", w.id(w.hash[i]), w.id(w.hash[j]))
+	w.evc++
+	w.delivered = true
+	if b.stamp < w.roundStart {
+		w.unclean = true
+		w.resetRounds()
+	} else {
+		w.served(i, j)
+	}
+	w.need[[2]int{i, j}] = true
+	r := w.rt[i]
+	r.Vf18Lock()
+	done := make(chan struct{})
+	go func() { r.Vf18RibUpdateNs(ns); close(done) }()
+	spin(3000)
+	ns.Advert = b.adv
+	r.Vf18Unlock()
+	ok := false
+	for k := 0; k < 2000000 && !ok; k++ {
+		select {
+		case <-done:
+			ok = true
+		default:
+			runtime.Gosched()
+		}
+	}
+	if !ok {
+		w.fail = "interleaving harness stuck (overtaken update did not finish)"
+		return
+	}
+	w.settle()
+	d := w.dirtyOf(i)
+	if d == "1" {
+		w.announce(i)
+	}
+	w.obs(i, d)
+}
+
 // several neighbours of i are found dead by ONE sweep of checkDeadNeighbors (= consecutive NbrDead events)
 func (w *world) evDeadMulti(i int, js []int) {
 	if w.rt[i] == nil || len(js) == 0 {
@@ -828,6 +969,10 @@ func (w *world) seqScenario() {
 		}
 	}
 	w.someFetches(w.r.Intn(4))
+	if w.rt[j] != nil && w.r.Intn(2) == 0 {
+		w.evSnap(j)
+		w.evOvertake(i, j) // an update started with the held advertisement is overtaken by the newer one
+	}
 	w.evData(i, j, s1, true)           // the delayed Data
 	w.evData(i, j, s2+5, w.r.Intn(2) == 0) // Data for a sequence number never announced
 	if w.r.Intn(3) == 0 {
@@ -1044,9 +1189,12 @@ func (w *world) detectAll() {
 		}
 		sort.Ints(js)
 		for _, j := range js {
-			if w.r.Intn(2) == 0 {
+			switch w.r.Intn(3) {
+			case 0:
 				w.evDeadLate(i, j)
-			} else {
+			case 1:
+				w.evDeadLateRace(i, j)
+			default:
 				w.evDead(i, j)
 			}
 			w.someFetches(w.r.Intn(3))
@@ -1126,9 +1274,12 @@ func (w *world) fault(edges [][2]int) {
 			return
 		}
 		p := ps[w.r.Intn(len(ps))]
-		if w.r.Intn(3) == 0 {
+		switch w.r.Intn(4) {
+		case 0:
 			w.evDeadLate(p[0], p[1])
-		} else {
+		case 1:
+			w.evDeadLateRace(p[0], p[1])
+		default:
 			w.evDead(p[0], p[1])
 		}
 		w.someFetches(w.r.Intn(6))
@@ -1633,6 +1784,8 @@ func TestReplay(t *testing.T) {
 				case "data", "olddata":
 					sq, _ := strconv.ParseUint(p[4], 10, 64)
 					w.evData(idx(p[2]), idx(p[3]), sq, p[1] == "olddata")
+				case "overtake":
+					w.evOvertake(idx(p[2]), idx(p[3]))
 				case "hold":
 					w.evHold(idx(p[2]))
 				case "nack", "ftimeout":
